@@ -167,10 +167,108 @@ def drawable (parts : List Part) : Bool :=
     | .stat b => b.all (fun c => c ≥ 32 && c < 127 && c != 123 && c != 125 && c != 91 && c != 93)
     | .par _ l => (l.name ++ l.cons).all (fun c => c > 32 && c < 127))
 
+
+/-! ### C15 on the byte-exact structural dump of the implementation's tree (hook `tree_dump`) -/
+
+structure DEnt where
+  depth : Nat
+  kind : String
+  lab : Bytes
+  cons : Bytes
+  data : Bool
+
+def parseDEnt (e : String) : Option DEnt :=
+  match e.splitOn "," with
+  | [d, k, l, c, m] => do
+    let d ← d.toNat?
+    let l ← unhex l
+    let c ← unhex c
+    if m == "D" then pure ⟨d, k, l, c, true⟩ else if m == "." then pure ⟨d, k, l, c, false⟩ else none
+  | _ => none
+
+/-- glue adjacent literal parts (a path read off the tree has its literal text split across nodes); same as `norm` of
+`Spec/Norm.lean`, repeated here so that the driver does not import proof modules -/
+def normP : List Part → List Part
+  | [] => []
+  | .stat a :: rest =>
+    match normP rest with
+    | .stat b :: r => .stat (a ++ b) :: r
+    | r => .stat a :: r
+  | .par k l :: rest => .par k l :: normP rest
+
+def dummyInfo : Info := { template := [], data := 0, depth := 0, length := 0 }
+
+/-- direct children of a node at depth `d` among the entries that follow it, each with its own sub-entries -/
+def splitKids (fuel : Nat) (d : Nat) (ls : List DEnt) : List (DEnt × List DEnt) :=
+  match fuel, ls with
+  | 0, _ => []
+  | _, [] => []
+  | fuel + 1, l :: rest =>
+    if l.depth != d + 1 then [] else
+    let sub := rest.takeWhile (fun x => x.depth > l.depth)
+    (l, sub) :: splitKids fuel d (rest.drop sub.length)
+
+def kidsOfList : List (Label × Node) → Kids
+  | [] => .nil
+  | (l, n) :: r => .cons l n (kidsOfList r)
+
+/-- rebuild a model tree (labels, order, marks) from the dump -/
+def buildNode : Nat → DEnt → List DEnt → Node
+  | 0, e, _ => .mk (if e.data then some dummyInfo else none) .nil .nil .nil .nil .nil .nil .nil false false false
+  | fuel + 1, e, sub =>
+    let kids := splitKids (sub.length + 1) e.depth sub
+    let slot (k : String) : Kids :=
+      kidsOfList ((kids.filter (fun c => c.1.kind == k)).map (fun c =>
+        ((if k == "s" then { pre := c.1.lab } else { name := c.1.lab, cons := c.1.cons } : Label), buildNode fuel c.1 c.2)))
+    .mk (if e.data then some dummyInfo else none) (slot "s") (slot "dc") (slot "d") (slot "wc") (slot "w") (slot "ec") (slot "e")
+      false false false
+
+def sortedLabels : List Label → Bool
+  | a :: b :: r => Label.lt a b && sortedLabels (b :: r)
+  | _ => true
+
+def kidsLabels : Kids → List Label
+  | .nil => []
+  | .cons l _ r => l :: kidsLabels r
+
+mutual
+/-- the node-level clauses of C15 below a node; `isRoot` exempts the root of an empty router from "every leaf is marked" -/
+def nodeClauses (isRoot : Bool) (what : String) : Node → List String
+  | .mk x s dc d wc w ec e _ _ _ =>
+    let leaf := s.isNil && dc.isNil && d.isNil && wc.isNil && w.isNil && ec.isNil && e.isNil
+    (if leaf && x.isNone && !isRoot then [s!"leaf {what} is not marked"] else []) ++
+    (if ((kidsLabels s).map (fun l => l.pre.head?)).eraseDups.length != (kidsLabels s).length then [s!"literal children of {what} share a first byte"] else []) ++
+    (if (kidsLabels s).any (fun l => l.pre.isEmpty) then [s!"{what} has a literal child with an empty label"] else []) ++
+    (if sortedLabels (kidsLabels s) && sortedLabels (kidsLabels dc) && sortedLabels (kidsLabels d) && sortedLabels (kidsLabels wc) &&
+        sortedLabels (kidsLabels w) && sortedLabels (kidsLabels ec) && sortedLabels (kidsLabels e) then []
+      else [s!"children of {what} are not in alphabetical order within their kind"]) ++
+    kidsClauses true s ++ kidsClauses false dc ++ kidsClauses false d ++ kidsClauses false wc ++ kidsClauses false w ++
+    kidsClauses false ec ++ kidsClauses false e
+def kidsClauses (lit : Bool) : Kids → List String
+  | .nil => []
+  | .cons l n r =>
+    (if lit && n.compress?.isSome then [s!"unmarked literal node {hex l.pre} has a single literal child and nothing else"] else []) ++
+    nodeClauses false (if lit then hex l.pre else "{" ++ hex l.name ++ "}") n ++ kidsClauses lit r
+end
+
+/-- C15 on a structural dump against the live routes (part lists, byte-exact) -/
+def checkDump (skeleton : String) (expected : List (List Part)) : List String :=
+  match (skeleton.splitOn ";").mapM parseDEnt with
+  | none => ["the structural dump cannot be parsed"]
+  | some [] => ["empty structural dump"]
+  | some (root :: rest) =>
+    let n := buildNode (rest.length + 1) root rest
+    let got := (Node.routes n).map (fun r => normP r.parts)
+    let want := expected.eraseDups
+    (if got.eraseDups.length != got.length then ["a marked path occurs twice"] else []) ++
+    (match want.find? (fun k => !got.contains k) with | some k => [s!"live route {String.join (k.map showPart)} is not a marked path of the tree"] | none => []) ++
+    (match got.find? (fun k => !want.contains k) with | some k => [s!"marked path {String.join (k.map showPart)} is not a live route"] | none => []) ++
+    nodeClauses true "root" n
+
 def classOf (op : Op) : String :=
   match op with
   | .reset => "reset" | .new .. => "new" | .constraint .. => "constraint" | .insert .. => "insert"
-  | .delete .. => "delete" | .search .. => "search" | .display _ => "display" | .clone .. => "clone"
+  | .delete .. => "delete" | .search .. => "search" | .display _ => "display" | .dump _ => "dump" | .clone .. => "clone"
   | .drop _ => "drop" | .parse _ => "parse" | .note => "note" | .bad _ => "bad"
 
 /-- model step: returns the model's output line and the new model routers -/
@@ -203,6 +301,10 @@ def modelStep (routers : List (Nat × Router)) (op : Op) : List (Nat × Router) 
     match get r with
     | none => (routers, "bad-router")
     | some x => (routers, "tree " ++ hex (strBytes x.display))
+  | .dump r =>
+    match get r with
+    | none => (routers, "bad-router")
+    | some x => (routers, showDump x.root)
   | .clone r r2 =>
     match get r with
     | none => (routers, "bad-router")
@@ -233,8 +335,17 @@ def judgeStep (s : JS) (models : List (Nat × Router)) (idx : Nat) (op : Op) (im
   let (modelCore, modelR) := stripR modelLine
   -- C07: panic
   let s := if implCore.startsWith "panic" then (s.emit s!"O {idx} C07 panic {implCore}").bump "panics" else s
+  -- the structural dump: the skeleton (labels, order, marks) is compared; the hidden state (shortcut flags, dirty mark)
+  -- is only counted, a rewrite of the code may legitimately keep other flags
+  let (implCore, implF) := match implCore.splitOn " F=" with | [a, b] => (a, some b) | _ => (implCore, none)
+  let (modelCore, modelF) := match modelCore.splitOn " F=" with | [a, b] => (a, some b) | _ => (modelCore, none)
+  let s := match implF, modelF with
+    | some a, some b => s.bump (if a == b then "dump.hidden-state.equal" else "dump.hidden-state.differs")
+    | _, _ => s
+  let dumpOff := cls == "dump" && implCore == "dump-unavailable"
+  let s := if dumpOff then s.bump "dump.unavailable" else s
   -- correspondence
-  let s := if implCore != modelCore then s.emit s!"D {idx} {cls}\t{implCore}\t{modelCore}" else s
+  let s := if implCore != modelCore && !dumpOff then s.emit s!"D {idx} {cls}\t{implCore}\t{modelCore}" else s
   let s := match implR, modelR with
     | some a, some b => if a != b then s.emit s!"D {idx} render\t{a}\t{b}" else s.bump "rendered.compared"
     | _, _ => s
@@ -335,6 +446,22 @@ def judgeStep (s : JS) (models : List (Nat × Router)) (idx : Nat) (op : Op) (im
         match s.obs.get? key with
         | some (prevLine, pidx) =>
           if prevLine != implCore then s.emit s!"O {idx} FUN tree differs from op {pidx} with the same live set" else s.bump "fun.tree.repeat"
+        | none => { s with obs := s.obs.insert key (implCore, idx) }
+    | .dump r =>
+      match s.get r with
+      | none => s
+      | some j =>
+        if !implCore.startsWith "dump " then s else
+        let skel := (implCore.drop 5).toString
+        let errs := checkDump skel ((liveRoutes j.live).map (·.parts))
+        let s := s.bump "c15.dump.checked"
+        let s := match errs with
+          | [] => s
+          | e :: _ => s.emit s!"O {idx} C15 structural dump: {e}"
+        let key := liveKey j.live ++ "#dump"
+        match s.obs.get? key with
+        | some (prevLine, pidx) =>
+          if prevLine != implCore then s.emit s!"O {idx} FUN structural dump differs from op {pidx} with the same live set" else s.bump "fun.dump.repeat"
         | none => { s with obs := s.obs.insert key (implCore, idx) }
     | .search r path tb =>
       match s.get r with
